@@ -4,7 +4,7 @@ from concurrent.futures import ThreadPoolExecutor
 
 VERIF = os.path.dirname(os.path.dirname(os.path.abspath(__file__)))
 REPO = os.environ.get('VERIF_REPO', '/repo')
-BUILD = os.path.join(VERIF, '.build')
+BUILD = os.path.join(VERIF, '.build') if REPO == '/repo' else os.path.join(VERIF, '.build', 'alt-' + hashlib.sha256(REPO.encode()).hexdigest()[:10])
 REPLAYS = os.path.join(VERIF, 'replays')
 NCPU = os.cpu_count() or 16
 GUARD = 'LIBNSTD_VERIF'
